@@ -148,7 +148,7 @@ def check_matcher(rng, tier, stats):
 STAGE_SHAPES = [
     # (function, parent kind, children attr, others-from, nk, bk)
     ('get_libraries', 'netlist', 'libraries', 'f'),
-    ('get_definitions', 'library', 'definitions', 'k'),
+    ('get_definitions', 'library', 'definitions', 'd'),
     ('get_instances', 'definition', 'children', 'f'),
     ('get_ports', 'definition', 'ports', 'd'),
     ('get_cables', 'definition', 'cables', 'd'),
@@ -161,7 +161,8 @@ def lookup_mode(key, policy, registered):
     if key == '.NAME':
         return 's'
     if key == 'EDIF.identifier':
-        return 'l' if policy == 'EDIF' else 'n'
+        # DEFAULT policy: the namespace keeps no identifier index (NotImplemented) and global_service.lookup scans
+        return 'l' if policy == 'EDIF' else 's'
     return 's'
 
 
